@@ -730,6 +730,11 @@ def numnorm(t):
         return ("binop", t[1], numnorm(t[2]), numnorm(t[3]))
     if k == "unop":
         return ("unop", t[1], numnorm(t[2]))
+    if k == "field" and t[2] == 0 and t[1][0] == "downcast" and t[1][2] == 0 and is_call(t[1][1]) and "TryFrom<" in t[1][1][1] and t[1][1][1].endswith("::try_from") and " for " in t[1][1][1]:
+        # the Ok payload of `uN::try_from(x)`: x itself, at the narrower type (read on the Ok arm only)
+        tgt = t[1][1][1].split(" for ")[-1].split(">")[0]
+        if tgt in ("u8", "u16", "u32", "u64", "usize"):
+            return ("cast", "IntToInt", numnorm(t[1][1][2][0]), tgt)
     if k == "field":
         return ("field", numnorm(t[1])) + t[2:]
     return t
@@ -1212,3 +1217,28 @@ def option_pipeline(ctx, se, t):
             v = resolve_locals(se, bb, nv)
             steps.append(("value", v))
     return t[4][0], steps
+
+
+def unwrap_try(se, t, depth=0):
+    """the value `x?` continues with when x is (a join of) Ok(y) and propagated errors: y.
+    t = ((Try::branch(X) as Continue).0); X = Ok{y} or a phi whose only Ok input is Ok{y}."""
+    if depth > 4:
+        return t
+    if t[0] == "field" and t[2] == 0 and t[1][0] == "downcast" and t[1][2] == 0 and is_call(t[1][1], BRANCH):
+        x = t[1][1][2][0]
+        oks = []
+        if x[0] == "agg" and x[2] == "std::result::Result" and x[3] == 0:
+            oks = [x[4][0]]
+        elif x[0] == "phi" and x[1] == se.fn and (x[2], x[3]) in se.phi_inputs:
+            for v in se.phi_inputs[(x[2], x[3])].values():
+                if v[0] == "agg" and v[2] == "std::result::Result" and v[3] == 0:
+                    oks.append(v[4][0])
+                elif v[0] == "agg" and v[2] == "std::result::Result" and v[3] == 1:
+                    continue
+                elif is_call(v) and "FromResidual" in v[1]:
+                    continue
+                else:
+                    return t
+        if len(oks) == 1:
+            return unwrap_try(se, oks[0], depth + 1)
+    return t
